@@ -86,8 +86,9 @@ class PersistentRemoteWorker(PersistentWorker, RemoteWorker):
         while True:
             try:
                 result = recv_msg(self._socket, comment='data: result')
-            except ConnectionClosedError:
-                logger.debug('Connection closed by the remote peer')
+            except Exception as e:
+                # either the connection is closed or the message cannot be rebuilt in this process
+                logger.debug('Connection closed by the remote peer or a result could not be deserialized: {!r}', e)
                 self._socket_closed = True
                 self._result = (False, None)
                 if not last_partial_result_signalled:
